@@ -35,7 +35,9 @@ RULE = (
     "parameterisation of each) x label set {0,1},{1,2,3},{a,b},{b,a,c} (listed unsorted),"
     "{-1,5,20},{0.5,1.5} x {balanced, 3:1} x panel (6 = 3 value families x {12,16} training "
     "instances, 24 time points - MUSE 16 in the quick tier; thorough 12 = + length 30) x random_state {0,1,2}; plus the forest regressor "
-    "over panel x random_state. The apply set is 6 fresh mixtures of class prototypes + 4 "
+    "over panel x random_state; the two forests again on panels shifted to level 1e7 and 1e8; a "
+    "column ensemble with columns given by name / callable / position applied to frames with "
+    "permuted and extra columns. The apply set is 6 fresh mixtures of class prototypes + 4 "
     "training instances. VERIF_SEED (+ case index) only rotates the container of X "
     "(nested/ndarray) and of y (ndarray/pd.Series). non-trivial = fit accepted and all oracles "
     "evaluated; distinct = distinct case tuple."
@@ -110,6 +112,27 @@ def gen_cases(tier, seed):
                        n=n, L=L, rs=rs, xc="nested", yseries=False)
             yield dict(kind="clf", est="CENS", opt=3, cols=2, labels=lab, balanced=True, fam=fam,
                        n=n, L=L, rs=rs, xc="nested", yseries=False)
+    # series whose level is large compared with their variation (one-pass moment formulas
+    # cancel there): the forests' white-box oracle on panels shifted by 1e7 / 1e8
+    for level in (1e7, 1e8):
+        for fam, n, L in panels[:3]:
+            for rs in (0, 1):
+                for lab in ("01", "bac"):
+                    yield dict(kind="clf", est="TSF", opt=0, cols=1, labels=lab, balanced=True,
+                               fam=fam, n=n, L=L, rs=rs, xc="nested", yseries=False, level=level)
+                yield dict(kind="reg", est="TSFR", opt=0, cols=1, fam=fam, n=n, L=L, rs=rs,
+                           xc="nested", yseries=False, level=level)
+    # column ensemble with columns specified by NAME (list, scalar-in-list, callable) applied to
+    # frames whose columns are in another order or that carry extra columns
+    for spec in ("names", "callable", "ints"):
+        for frame in ("same", "permuted", "extra"):
+            if spec == "ints" and frame != "same":
+                continue
+            for lab in ("01", "bac"):
+                for rs in (0, 1):
+                    fam, n, L = panels[0]
+                    yield dict(kind="censcols", spec=spec, frame=frame, labels=lab, fam=fam, n=n,
+                               L=L, rs=rs)
     # the forests under n_jobs > 1 (joblib threading backend): n_estimators is not a multiple of
     # the number of jobs
     for name in ("TSF", "RISE", "STSF"):
@@ -126,6 +149,13 @@ def gen_cases(tier, seed):
 
 
 # ------------------------------------------------------------------------------ helpers
+def _lift(X, level):
+    """every value shifted by a constant level (None: unchanged)"""
+    if not level:
+        return X
+    return [[[level + v for v in col] for col in inst] for inst in X]
+
+
 def _univariate(X, col=0):
     return [x[col] for x in X]
 
@@ -168,6 +198,8 @@ def _run_case(case):
     res = Result()
     if case["kind"] == "reg":
         return _run_reg(case, res)
+    if case["kind"] == "censcols":
+        return _run_censcols(case, res)
     name = case["est"]
     labels = P.LABEL_SETS[case["labels"]]
     k = len(labels)
@@ -180,6 +212,7 @@ def _run_case(case):
     X, ks = P.train_panel(case["n"], k, case["balanced"], nc, L, fam, rare_k)
     y = P.label_array(labels, ks, as_series=case["yseries"])
     Xa, ka = P.apply_panel(6, k, nc, L, fam)
+    X, Xa = _lift(X, case.get("level")), _lift(Xa, case.get("level"))
     Xt = Xa + P.select(X, [0, 1, 2, 5])
     kt = ka + [ks[i] for i in (0, 1, 2, 5)]
     # test labels: true ones, two of them deliberately replaced by another class
@@ -344,12 +377,92 @@ def _run_case(case):
     return res
 
 
+def _run_censcols(case, res):
+    from sktime.classification.compose import ColumnEnsembleClassifier
+    from sktime.classification.interval_based import TimeSeriesForestClassifier
+
+    labels = P.LABEL_SETS[case["labels"]]
+    k, L, fam, rs = len(labels), case["L"], case["fam"], case["rs"]
+    X, ks = P.train_panel(case["n"], k, True, 3, L, fam, 0)
+    y = P.label_array(labels, ks)
+    Xa, _ = P.apply_panel(6, k, 3, L, fam)
+    names = ["a", "b", "c"]
+
+    def frame(Z, order):
+        F = P.to_nested(Z, "dim")
+        F.columns = names
+        if order == "permuted":
+            F = F[["c", "a", "b"]]
+        elif order == "extra":
+            F.insert(0, "z", F["a"].copy())
+            F = F[["z", "c", "b", "a"]]
+        return F
+
+    col0, col1 = {"names": (["b"], ["c", "a"]), "ints": ([1], [2, 0]),
+                  "callable": (lambda F: ["b"], lambda F: ["c", "a"])}[case["spec"]]
+    # the second member sees two columns: a forest on the first of its columns
+    clf = ColumnEnsembleClassifier([
+        ("m0", TimeSeriesForestClassifier(n_estimators=4, random_state=rs), col0),
+        ("m1", _FirstColumn(TimeSeriesForestClassifier(n_estimators=3, random_state=rs + 11)),
+         col1)])
+    o = call(lambda: clf.fit(frame(X, "same"), y))
+    res.outcome("CENS:cols:fit:" + o.kind)
+    if not o.ok:
+        res.violate("CENS:cols:fit:raises", "fit raised", observed=o.brief())
+        return res
+    o = call(lambda: np.asarray(clf.predict_proba(frame(Xa, case["frame"])), dtype=float))
+    if not o.ok:
+        res.violate("CENS:cols:proba:raises", "predict_proba raised on a frame that contains the "
+                    "named columns", observed=o.brief())
+        return res
+    Pm = o.value
+    own = (["b"], ["c", "a"])
+    F = frame(Xa, "same")
+    outs = [np.asarray(est.predict_proba(F[own[j]]), dtype=float)
+            for j, (_, est, _) in enumerate(clf.estimators_)]
+    ref = (outs[0] + outs[1]) / 2.0
+    res.evals += 1
+    res.nt(tuple(sorted((a, str(b)) for a, b in case.items())))
+    if Pm.shape != ref.shape or not np.allclose(Pm, ref, rtol=1e-9, atol=1e-12):
+        res.violate("CENS:cols:whitebox", "probabilities are not the mean of the members' "
+                    "probabilities on their own (named) columns when the frame's columns are %s"
+                    % case["frame"], expected=ref[:2].tolist(), observed=Pm[:2].tolist())
+    return res
+
+
+class _FirstColumn:
+    """classifier double: the wrapped classifier on the first of the columns it is given
+    (distinguishes ['c', 'a'] from ['a', 'c'])"""
+
+    def __init__(self, inner):
+        self.inner = inner
+
+    def get_params(self, deep=True):
+        return {"inner": self.inner}
+
+    def set_params(self, **kw):
+        self.inner = kw.get("inner", self.inner)
+        return self
+
+    def fit(self, X, y):
+        self.inner.fit(X.iloc[:, [0]], y)
+        self.classes_ = self.inner.classes_
+        return self
+
+    def predict_proba(self, X):
+        return self.inner.predict_proba(X.iloc[:, [0]])
+
+    def predict(self, X):
+        return self.inner.predict(X.iloc[:, [0]])
+
+
 def _run_reg(case, res):
     L, fam = case["L"], case["fam"]
     X, ks = P.train_panel(case["n"], 3, True, 1, L, fam)
     yv = P.regression_target(X, ks)
     y = pd.Series(yv) if case["yseries"] else np.array(yv)
     Xa, _ = P.apply_panel(6, 3, 1, L, fam)
+    X, Xa = _lift(X, case.get("level")), _lift(Xa, case.get("level"))
     Xt = Xa + P.select(X, [0, 1, 2, 5])
     mk = lambda Z: P.container(Z, case["xc"], "dim")  # noqa: E731
     reg = P.make_regressor(case["rs"], case["opt"], case.get("n_jobs"))
